@@ -270,7 +270,7 @@ def judge(ctx, cmd, code, reps, stats, probe_of=None):
                         # no listed shape: is the command at least outside the fragment on which from_ms is PROVED right
                         # (fromMs_sem2: Tame2, fromMs_sem3: Tame3)?  Inside them, a wrong result contradicts the theorem and is never attributed.
                         tr = ctx.driver.batch([{"op": "ms_tame", "tokens": cmd.tokens}])[0]
-                        if "ok" in tr and not tr["ok"]["tame2"] and not tr["ok"]["tame3"]:
+                        if "ok" in tr and not tr["ok"]["tame2"] and not tr["ok"]["tame3"] and not tr["ok"].get("tame13", False):
                             shape = " [same-time -es/-ej group outside the proved fragments Tame2 and Tame3]"
                     ctx.violation("from_ms: graph differs from the ms semantics" + shape + ": " + why.split(":")[0],
                                   cmd.case(), detail={"difference": why}, python=cmd.repro())
